@@ -48,6 +48,10 @@ func genC13(seed uint64, index int, tier string) *run.Plan {
 	}
 	p.P["split"] = g.Intn(2)
 	if g.Intn(3) == 0 {
+		p.P["pct"] = 1 + g.Intn(3)
+		p.P["pct_span"] = 100 + g.Intn(5000)
+	}
+	if g.Intn(3) == 0 {
 		p.P["stale_pm"] = []int{200, 600}[g.Intn(2)]
 	}
 	for s := 0; s < ns; s++ {
@@ -263,6 +267,7 @@ func execC13(t *testing.T, w *core.World, p *run.Plan, r *run.Result) {
 		}
 	}
 	tReady := w.Now()
+	setPCT(w, p)
 
 	// ---- refresh judging ----
 	type refresh struct {
@@ -645,7 +650,7 @@ func execC13(t *testing.T, w *core.World, p *run.Plan, r *run.Result) {
 		servers[i].SetHead(globalHead)
 	}
 	w.Sched.DisableStalls()
-	w.Fair = true
+	w.Fair, w.PCT = true, false
 	w.Run(func() bool { return false }, w.Steps+60000, w.Now()+40*time.Second)
 	var probes []*c13op
 	probesDone := false
